@@ -389,7 +389,15 @@ json::Value eventOf(Ctx& X, const Stmt* st) {
   }
   if (auto* cc = dyn_cast<CXXUnresolvedConstructExpr>(st)) {
     json::Array args; for (auto* a : cc->arguments()) args.push_back(exprJ(X, a));
-    return json::Object{{"k", "construct"}, {"line", lineOf(X, cc->getBeginLoc())}, {"type", typeStr(canon(cc->getTypeAsWritten()), X.C)}, {"args", std::move(args)}};
+    json::Object o{{"k", "construct"}, {"line", lineOf(X, cc->getBeginLoc())}, {"type", typeStr(canon(cc->getTypeAsWritten()), X.C)}, {"args", std::move(args)}};
+    // T{pack...} / T(pack...) with nothing but a pack expansion: value-initialisation when the pack is empty
+    {
+      std::vector<const Expr*> as(cc->arguments().begin(), cc->arguments().end());
+      if (as.size() == 1) if (auto* il = dyn_cast<InitListExpr>(as[0])) as.assign(il->inits().begin(), il->inits().end());
+      o["nargs"] = (int64_t)as.size();
+      if (as.size() == 1 && isa<PackExpansionExpr>(as[0])) o["packonly"] = true;
+    }
+    return std::move(o);
   }
   if (auto* il = dyn_cast<InitListExpr>(st)) {
     if (il->getNumInits() == 0) return nullptr;
